@@ -35,11 +35,18 @@ from . import common as cm
 
 META = {
     "level": "model_checking",
-    "trusted": ["z3 5.1.0", "JAX tracing (A6)", "det/inv/expm stubs (A2)", "exp/acosh uninterpreted with the contracts exp(a)exp(-a)=1, cosh(acosh y)=y (A3)"],
+    "trusted": ["z3 5.1.0", "JAX tracing (A6)", "det/inv/expm stubs (A2)", "exp/acosh uninterpreted with the contracts exp(a)exp(-a)=1, cosh(acosh y)=y (A3)",
+                "step structure: comparison oracle forcing each field configuration (decisions kept as path conditions), inductive cut points at every field-scan "
+                "iteration and after every incremental Green's function update (the replaced state is proved equal to the state it replaces), "
+                "erf / PRNG numbers uninterpreted; jax.random inside ad_afqmc.propagation replaced by a harness stub for the neighbour propagators (A3)"],
     "assumptions": ["A1 reals for floats", "real walkers and trials (as the CPMC propagators use)", "matrices the code inverts are invertible"],
-    "bounds": {"quick": "fast updates: uhf_cpmc (3;1,1), (3;2,1) and ghf_cpmc (2;1,1), (3;1,1), all ordered pairs; exp_h1 at norb 2, 1-2 Cholesky matrices; HS constants symbolic dt*U",
-               "thorough": "uhf_cpmc (4;2,2 identity-column trial), ghf_cpmc (3;2,1)"},
-    "outside": "the per-site sampling structure of propagate() over more than the bounded lattice; constraint-active branches; norb > 4",
+    "bounds": {"quick": "fast updates: uhf_cpmc (3;1,1), (3;2,1) and ghf_cpmc (2;1,1), (3;1,1), all ordered pairs; exp_h1 at norb 2, 1-2 Cholesky matrices; HS constants symbolic dt*U; "
+                        "step structure: one walker, propagator_cpmc + _slow with uhf_cpmc (2;1,1), (3;2,1) and ghf_cpmc (2;1,1), all 2^n field configurations; "
+                        "propagator_cpmc_nn + _nn_slow with uhf_cpmc (2;1,1) and one bond (64 configurations: on-site fields, every Green's function update, "
+                        "fast = slow symbolically; the 16-term bond sum identity only on exact rational instances)",
+               "thorough": "uhf_cpmc (4;2,2 identity-column trial), ghf_cpmc (3;2,1); step structure also ghf_cpmc (3;1,1), nn with ghf_cpmc and with 3 sites / 2 bonds"},
+    "outside": "constraint-active branches (any ratio < 1e-8, weight < 1e-8 or > 100); more than one walker per step (walkers do not interact inside propagate: C14); norb > 4; "
+               "the unbiasedness SUM over the 16 outcomes of one neighbour bond as a symbolic identity",
 }
 
 
@@ -366,21 +373,28 @@ class Step(engine.Case):
         return {"Wu": both[0], "Wd": both[1], "G": g[0] if g else None, "ov": one[0], "w": one[1]}  # dict keys are flattened in sorted order: overlaps < walkers < weights
 
     def prepare_interp(self, it, inp):
-        self._log, self._mask_k, self._rec = [], 0, {}
+        self._log, self._mask_k, self._rec, self._active = [], 0, {}, False
         ni, nf = len(self.props), self.nf
 
         def oracle(op, x, y):
             thr = y.isconst() and float(y.c[0]) in (1.0e-8, 100.0)
+            # "no constraint is active" means  x >= 1e-8  resp.  x <= 100, however the guard is written
+            inactive = ({"lt": False, "le": False, "ge": True, "gt": True} if thr and float(y.c[0]) == 1.0e-8 else
+                        {"gt": False, "ge": False, "le": True, "lt": True}).get(op)
             if x.isconst() and y.isconst():
                 d = bool(qdom.compare(op, x, y))
             elif thr:
-                d = False  # "no constraint is active": kept as a path condition
+                if inactive is None:
+                    return None
+                d = inactive  # kept as a path condition
             else:
                 k = self._mask_k
                 d = self.configs[k // (ni * nf)][k % nf] == 0
             if not thr:
                 self._mask_k += 1
             self._log.append(("thr" if thr else "mask", op, x, y, d))
+            if thr and inactive is not None and d != inactive:
+                self._active = True  # a concrete instance on which a constraint is active
             return d
         it.cmp_oracle = oracle
         if self.stage != "symbolic":
@@ -467,6 +481,10 @@ class Step(engine.Case):
         for kind, op, x, y, d in self._log:
             if x.isconst() and y.isconst():
                 continue
+            if kind == "mask" and not x.isconst():
+                # the uniform number is an uninterpreted value (erf of the gaussian): the obligations are then shown WITHOUT assuming that
+                # it falls on the forced side of the probability, which is more than is needed
+                continue
             c = qdom.compare(op, x, y)
             e = c.e if hasattr(c, "e") else z3.BoolVal(bool(c))
             out.append(e if d else z3.Not(e))
@@ -535,7 +553,7 @@ class Step(engine.Case):
         expE = expE[()] if isinstance(expE, np.ndarray) else expE
         one = Q(1) if exact else 1.0
         if exact:
-            if any(kind == "thr" and d for kind, op, x, y, d in self._log):
+            if self._active:
                 return []  # a concrete instance on which a constraint is active: outside the claim
             mk = self._masks_by_run()
             prob = {}
@@ -987,6 +1005,13 @@ def cases(tier):
             out.append({"type": "fast", "kind": "uhf_cpmc", "norb": 4, "nelec": [2, 2], "opt": {"ident": 1}, "chunk": ch, "nchunks": 4})
             out.append({"type": "fast", "kind": "uhf_cpmc", "norb": 3, "nelec": [2, 1], "opt": {}, "chunk": ch, "nchunks": 4})
     out.append({"type": "step", "family": "onsite", "kind": "uhf_cpmc", "norb": 2, "nelec": [1, 1]})
+    out.append({"type": "step", "family": "onsite", "kind": "ghf_cpmc", "norb": 2, "nelec": [1, 1]})
+    out.append({"type": "step", "family": "onsite", "kind": "uhf_cpmc", "norb": 3, "nelec": [2, 1]})
+    out.append({"type": "step", "family": "nn", "kind": "uhf_cpmc", "norb": 2, "nelec": [1, 1], "neighbors": [[0, 1]]})
+    if tier == "thorough":
+        out.append({"type": "step", "family": "onsite", "kind": "ghf_cpmc", "norb": 3, "nelec": [1, 1]})
+        out.append({"type": "step", "family": "nn", "kind": "ghf_cpmc", "norb": 2, "nelec": [1, 1], "neighbors": [[0, 1]]})
+        out.append({"type": "step", "family": "nn", "kind": "uhf_cpmc", "norb": 3, "nelec": [1, 1], "neighbors": [[0, 1], [1, 2]]})
     for prop in ("propagator_cpmc", "propagator_cpmc_nn"):
         out.append({"type": "onebody", "norb": 2, "nchol": 1, "prop": prop})
         out.append({"type": "hs", "prop": prop})
